@@ -1,5 +1,12 @@
 (** C11 — tie by regeneration.  Only statements; every proof is [exact <lemma>].
 
+    PART 1 (theorems 1-5): the value tokenizers of tokens.py, as EQUALITIES with the model's functions.
+    PART 2 (theorems 6-30): the methods of Deb822ParsedTokenList and ValueReference of parsing.py, as REFINEMENT
+    theorems over C09's regenerated LinkedList (see the comment before theorem 6).
+    NOT regenerated: [Deb822ParsedTokenList.__init__] / [ListInterpretation] / [_parse_str] + the stream parsers (the
+    model's [interpret]), [__exit__] / [_update_field] (the model's [close] / [update_field] with the re-parse recogniser
+    [reparse]), the sort / reformat methods (outside C11).
+
     Gen/TrListTok.v is REGENERATED from lib/debian/_deb822_repro/tokens.py by harness/py2coq.py on every run:
     [tr_whitespace_split_tokenizer], [tr_comma_split_tokenizer] are the bodies of the two per-line tokenizers (the
     functions under the [@_value_line_tokenizer] decorator) and [tr_value_line_tokenizer_impl] is the body of the
@@ -35,8 +42,10 @@
     - [str.strip()] = [strip_by isws], [splitlines(keepends=True)] = [splitlines py_islinebreak true],
       [startswith("#")], [endswith("\n")], [sys.intern] (identity);
     and, in Lib/Tr.v: indexing, slices, [tr_opt_truthy], [tr_char_in]. *)
-From Verif Require Import Lib.Base Lib.PyStr Lib.Tr Gen.PyChars
-  Repro.ListView Repro.ListTrPrims Gen.TrListTok Repro.ListTie Props.C11.
+From Verif Require Import Lib.Base Lib.PyStr Lib.Tr Gen.PyChars.
+From Verif Require Import Dict.Common Dict.Heap Dict.TrPrims Repro.StructTrPrims.
+From Verif Require Import Repro.ListView Repro.ListTrPrims Gen.TrListTok Repro.ListTie
+  Repro.ListViewTrPrims Gen.TrListView Repro.ListViewTie Props.C11.
 
 (** 1. [whitespace_split_tokenizer] before decoration (one line): the assert, else the model's line tokenizer. *)
 Theorem C11_tie_whitespace_split_line :
@@ -82,4 +91,254 @@ Example C11_tie_tokenizer_example :
   = Ok [Tok KWs [32]; Tok KVal [97]; Tok KComma [44]; Tok KWs [32]; Tok KVal [98]; Tok KNl [10];
         Tok KCom [35; 99; 10];
         Tok KCont [32]; Tok KVal [100; 32; 101]; Tok KNl [10]]%N.
+Proof. vm_compute. reflexivity. Qed.
+
+
+(** * PART 2 — Deb822ParsedTokenList and ValueReference (Gen/TrListView.v, regenerated from parsing.py on every run)
+
+    What is regenerated: [value_parts], [__iter__], [_mark_changed], [_previous_is_newline], [append_newline],
+    [_continuation_line_char] (with its cache), [_append_continuation_line_token_if_necessary], [append_separator],
+    [append_value] (the backwards scan for a separator, through the alias [value_parts = self._token_list]), [append],
+    [append_comment], [replace] and [remove] (for/else over [iter_nodes()] with [break]), [_remove_node] (both scans with
+    their [continue]/[break], the choice of the side, the [head_node]/[tail_node] bookkeeping and
+    [LinkedListNode.link_nodes]), [iter_value_references], and [ValueReference._resolve_node] / [.value] getter and
+    setter / [.remove] (state = the view's state plus the reference's [_node] slot; [_removal_handler] and
+    [_mutation_notifier] are the view's regenerated [_remove_node] / [_mark_changed]).
+
+    The LinkedList behind [self._token_list] is NOT translated again: [trp_ll_append], [trp_ll_iter], [trp_ll_iter_nodes],
+    [trp_ll_clear], [tr_link_nodes], … are C09's regenerated functions (Gen/TrLinkedList.v) run on the record of the list
+    object (C10's adapters, Repro/StructTrPrims.v); C09's and C10's lemmas about them are reused.
+
+    Shape of the statements.  The model's [view] is a list of items; the code has heap nodes.  [v_inv hp its ll R]: the
+    linked structure (C09's [ll_rep], with the size the list SHOULD have: [_remove_node] relinks nodes without
+    updating [_size], so the stored size is stale afterwards — the theorems hold with it) carries the rows [R] in order
+    and the store maps each row's reference to its item; [v_rep st vw]: some rows with the items of [vw] are
+    represented and [_changed] / the cached continuation character agree.  For EVERY state that represents a view:
+      [v_does its r vw']      r = MOk tt st', st' represents vw' and the store only grew;
+      [v_refines r st m]      m = Ok vw' -> v_does …;  m = Err e -> r = MErr e st (same kind, state untouched).
+    The right-hand sides are the model operations that [agree] runs through [run_session] / [run_ops] / [step]
+    (OAppend [append], ORemove [remove], OReplace [replace], OSep [append_separator], ONewline [append_newline],
+    OComment [append_comment], list(view) [view_values]); the reference operations ([ORefGet]/[ORefSet]/[ORefRemove]) are
+    stated at the position of the node: the model's [ref_get]/[ref_set]/[ref_remove] are [render] / [set_value_at] /
+    [remove_at] at the position that [resolve] finds, or OtherError when it finds none.
+
+    Hand-modelled (Repro/ListViewTrPrims.v; sources asserted by hash in harness/props/c11.py): the store of items;
+    [self._render] = [render], [self._value_factory] = [value_factory k] (its tokenizer is PART 1), the separator
+    factory, isinstance on the four classes, [convert_to_text]/[text]/[is_whitespace]/[is_comment], [_format_comment] =
+    [format_comment], the token constructors (no check), [iter_previous(skip_current=True)] (a walk along
+    [previous_node]) and [iter_next(skip_current=True)] (C09's regenerated loop from [next_node]), the weak reference of a
+    ValueReference (alive exactly while its node is linked: TRUSTED of C11). *)
+
+(** 6. [list(view)] ([__iter__] over [value_parts]): exactly the model's values. *)
+Theorem C11_tie_iter :
+  forall k hp its ll ch co vw,
+    v_rep (hp, its, ll, ch, co) vw -> tr_v_iter k hp its ll ch co = Ok (view_values vw).
+Proof. exact tr_v_iter_rep. Qed.
+Print Assumptions C11_tie_iter.
+
+(** 7. [value_parts]: the references of the value rows, in order. *)
+Theorem C11_tie_value_parts :
+  forall k hp its ll ch co R,
+    v_inv hp its ll R ->
+    tr_v_value_parts k hp its ll ch co = Ok (map vr_ref (filter (fun r => is_value (vr_item r)) R)).
+Proof. exact tr_v_value_parts_inv. Qed.
+Print Assumptions C11_tie_value_parts.
+
+(** 8. [_previous_is_newline]. *)
+Theorem C11_tie_previous_is_newline :
+  forall k hp its ll ch co vw,
+    v_rep (hp, its, ll, ch, co) vw -> tr_v_previous_is_newline k hp its ll ch co = Ok (tail_ends_lf vw).
+Proof. exact tr_v_previous_is_newline_rep. Qed.
+Print Assumptions C11_tie_previous_is_newline.
+
+(** 9. [append_newline] (ONewline): ValueError after a newline, nothing changed. *)
+Theorem C11_tie_append_newline :
+  forall k hp its ll ch co vw,
+    v_rep (hp, its, ll, ch, co) vw ->
+    v_refines (tr_v_append_newline k hp its ll ch co) (hp, its, ll, ch, co) (append_newline vw).
+Proof. exact tr_v_append_newline_refines. Qed.
+Print Assumptions C11_tie_append_newline.
+
+(** 10. [_continuation_line_char]: the model's [cont_char], cache included; never None. *)
+Theorem C11_tie_continuation_line_char :
+  forall k hp its ll ch co vw,
+    v_rep (hp, its, ll, ch, co) vw ->
+    tr_v_continuation_line_char k hp its ll ch co
+      = MOk (Some (fst (cont_char vw))) (hp, its, ll, ch, Some (fst (cont_char vw)))
+    /\ v_rep (hp, its, ll, ch, Some (fst (cont_char vw))) (snd (cont_char vw)).
+Proof. exact tr_cont_char_rep. Qed.
+Print Assumptions C11_tie_continuation_line_char.
+
+(** 11. [_append_continuation_line_token_if_necessary]. *)
+Theorem C11_tie_append_continuation_if_necessary :
+  forall k hp its ll ch co vw,
+    v_rep (hp, its, ll, ch, co) vw ->
+    v_does its (tr_v_append_cont_if_necessary k hp its ll ch co) (append_cont_if_necessary vw).
+Proof. exact tr_v_append_cont_does. Qed.
+Print Assumptions C11_tie_append_continuation_if_necessary.
+
+(** 12. [append_separator(space_after_separator)] (OSep). *)
+Theorem C11_tie_append_separator :
+  forall k hp its ll ch co vw b,
+    v_rep (hp, its, ll, ch, co) vw ->
+    v_does its (tr_v_append_separator k hp its ll ch co b) (append_separator k b vw).
+Proof. exact tr_v_append_separator_does. Qed.
+Print Assumptions C11_tie_append_separator.
+
+(** 13. [append_value(vt)] for an element object [vt] of the store. *)
+Theorem C11_tie_append_value :
+  forall k hp its ll ch co vw vt it,
+    v_rep (hp, its, ll, ch, co) vw -> te_get its vt = Some it ->
+    v_does its (tr_v_append_value k hp its ll ch co vt) (append_value k it vw).
+Proof. exact tr_v_append_value_does. Qed.
+Print Assumptions C11_tie_append_value.
+
+(** 14. [append(value)] (OAppend): the factory's exception kind, nothing changed; else the model's view. *)
+Theorem C11_tie_append :
+  forall k hp its ll ch co vw x,
+    v_rep (hp, its, ll, ch, co) vw ->
+    v_refines (tr_v_append k hp its ll ch co x) (hp, its, ll, ch, co) (append k x vw).
+Proof. exact tr_v_append_refines. Qed.
+Print Assumptions C11_tie_append.
+
+(** 15. [append_comment(text)] (OComment): a rejected comment text leaves the newline behind, as the model says. *)
+Theorem C11_tie_append_comment :
+  forall k hp its ll ch co vw c,
+    v_rep (hp, its, ll, ch, co) vw ->
+    match append_comment c vw with
+    | (Ok vw', _) => v_does its (tr_v_append_comment k hp its ll ch co c) vw'
+    | (Err e, vw1) => exists hp' y ll' ch' co',
+        tr_v_append_comment k hp its ll ch co c = MErr e (hp', its ++ y, ll', ch', co')
+        /\ v_rep (hp', its ++ y, ll', ch', co') vw1
+    end.
+Proof. exact tr_v_append_comment_refines. Qed.
+Print Assumptions C11_tie_append_comment.
+
+(** 16. [replace(orig, new)] (OReplace). *)
+Theorem C11_tie_replace :
+  forall k hp its ll ch co vw x y,
+    v_rep (hp, its, ll, ch, co) vw ->
+    v_refines (tr_v_replace k hp its ll ch co x y) (hp, its, ll, ch, co) (replace k x y vw).
+Proof. exact tr_v_replace_refines. Qed.
+Print Assumptions C11_tie_replace.
+
+(** 17. [_remove_node(node)] for the node of the row at position [length R1]: the model's [remove_at] there — the two
+    scans, the choice of the side, [clear()] for the only value, the unlinking with its head/tail bookkeeping. *)
+Theorem C11_tie_remove_node :
+  forall k hp its ll ch co vw R1 r R2,
+    v_inv hp its ll (R1 ++ r :: R2) -> map vr_item (R1 ++ r :: R2) = v_items vw -> co = v_cont vw ->
+    v_does its (tr_v_remove_node k hp its ll ch co (vr_id r)) (remove_at (length R1) vw).
+Proof. exact tr_v_remove_node_does. Qed.
+Print Assumptions C11_tie_remove_node.
+
+(** 18. [remove(value)] (ORemove). *)
+Theorem C11_tie_remove :
+  forall k hp its ll ch co vw x,
+    v_rep (hp, its, ll, ch, co) vw ->
+    v_refines (tr_v_remove k hp its ll ch co x) (hp, its, ll, ch, co) (remove x vw).
+Proof. exact tr_v_remove_refines. Qed.
+Print Assumptions C11_tie_remove.
+
+(** 19. [iter_value_references()] (OSnap): one reference per value row, in order, holding that row's node. *)
+Theorem C11_tie_iter_value_references :
+  forall k hp its ll ch co R,
+    v_inv hp its ll R ->
+    tr_v_iter_value_references k hp its ll ch co
+    = Ok (map (fun r => Some (vr_id r)) (filter (fun r => is_value (vr_item r)) R)).
+Proof. exact tr_v_iter_value_references_inv. Qed.
+Print Assumptions C11_tie_iter_value_references.
+
+(** 20-21. [ValueReference._resolve_node]: the node while it is linked; RuntimeError (OtherError) after the reference's
+    own remove() ([_node] is None) or when its node is no longer in the list. *)
+Theorem C11_tie_ref_resolve_live :
+  forall k hp its ll ch co R1 r R2,
+    v_inv hp its ll (R1 ++ r :: R2) -> tr_r_resolve_node k hp its ll ch co (Some (vr_id r)) = Ok (vr_id r).
+Proof. exact tr_r_resolve_live. Qed.
+Print Assumptions C11_tie_ref_resolve_live.
+Theorem C11_tie_ref_resolve_dead :
+  forall k hp its ll ch co R o,
+    v_inv hp its ll R -> match o with Some w => ~ In w (map vr_id R) | None => True end ->
+    tr_r_resolve_node k hp its ll ch co o = Err OtherError.
+Proof. exact tr_r_resolve_dead. Qed.
+Print Assumptions C11_tie_ref_resolve_dead.
+
+(** 22-23. [ref.value] (ORefGet). *)
+Theorem C11_tie_ref_value_get_live :
+  forall k hp its ll ch co R1 r R2,
+    v_inv hp its ll (R1 ++ r :: R2) ->
+    tr_r_value_get k hp its ll ch co (Some (vr_id r)) = Ok (render (vr_item r)).
+Proof. exact tr_r_value_get_live. Qed.
+Print Assumptions C11_tie_ref_value_get_live.
+Theorem C11_tie_ref_value_get_dead :
+  forall k hp its ll ch co R o,
+    v_inv hp its ll R -> match o with Some w => ~ In w (map vr_id R) | None => True end ->
+    tr_r_value_get k hp its ll ch co o = Err OtherError.
+Proof. exact tr_r_value_get_dead. Qed.
+Print Assumptions C11_tie_ref_value_get_dead.
+
+(** 24-25. [ref.value = x] (ORefSet): the factory runs first (its exception kind wins, nothing changed); a dead
+    reference raises after it (the new element was made, nothing else changed). *)
+Theorem C11_tie_ref_value_set_live :
+  forall k hp its ll ch co vw R1 r R2 x,
+    v_inv hp its ll (R1 ++ r :: R2) -> map vr_item (R1 ++ r :: R2) = v_items vw -> co = v_cont vw ->
+    match value_factory k x with
+    | Err e => tr_r_value_set k hp its ll ch co (Some (vr_id r)) x = MErr e (hp, its, ll, ch, co, Some (vr_id r))
+    | Ok vt => exists hp',
+        tr_r_value_set k hp its ll ch co (Some (vr_id r)) x = MOk tt (hp', its ++ [vt], ll, true, co, Some (vr_id r))
+        /\ v_rep (hp', its ++ [vt], ll, true, co) (set_value_at (length R1) vt vw)
+    end.
+Proof. exact tr_r_value_set_live. Qed.
+Print Assumptions C11_tie_ref_value_set_live.
+Theorem C11_tie_ref_value_set_dead :
+  forall k hp its ll ch co R o x,
+    v_inv hp its ll R -> match o with Some w => ~ In w (map vr_id R) | None => True end ->
+    match value_factory k x with
+    | Err e => tr_r_value_set k hp its ll ch co o x = MErr e (hp, its, ll, ch, co, o)
+    | Ok vt => tr_r_value_set k hp its ll ch co o x = MErr OtherError (hp, its ++ [vt], ll, ch, co, o)
+    end.
+Proof. exact tr_r_value_set_dead. Qed.
+Print Assumptions C11_tie_ref_value_set_dead.
+
+(** 26-27. [ref.remove()] (ORefRemove): the view's [_remove_node] at the node, then the reference is dead. *)
+Theorem C11_tie_ref_remove_live :
+  forall k hp its ll ch co vw R1 r R2,
+    v_inv hp its ll (R1 ++ r :: R2) -> map vr_item (R1 ++ r :: R2) = v_items vw -> co = v_cont vw ->
+    exists hp' y ll' ch' co',
+      tr_r_remove k hp its ll ch co (Some (vr_id r)) = MOk tt (hp', its ++ y, ll', ch', co', None)
+      /\ v_rep (hp', its ++ y, ll', ch', co') (remove_at (length R1) vw).
+Proof. exact tr_r_remove_live. Qed.
+Print Assumptions C11_tie_ref_remove_live.
+Theorem C11_tie_ref_remove_dead :
+  forall k hp its ll ch co R o,
+    v_inv hp its ll R -> match o with Some w => ~ In w (map vr_id R) | None => True end ->
+    tr_r_remove k hp its ll ch co o = MErr OtherError (hp, its, ll, ch, co, o).
+Proof. exact tr_r_remove_dead. Qed.
+Print Assumptions C11_tie_ref_remove_dead.
+
+(** The representation relation is satisfiable: the empty list object represents the view without nodes, and every
+    other represented state is reached from it by the regenerated methods (theorems 9-18). *)
+Example C11_tie_rep_empty : v_rep (heap0, [], ll_empty, false, None) (View [] 0 None false []).
+Proof. exact (v_rep_empty heap0). Qed.
+
+(** The regenerated methods compute: on the empty comma list, append "a", append "b", append_comment, read the values,
+    take the references, remove through the first reference and read again. *)
+Example C11_tie_view_example :
+  match tr_v_append Comma heap0 [] ll_empty false None [97]%N with
+  | MOk _ (hp, its, ll, ch, co) =>
+      match tr_v_append Comma hp its ll ch co [98]%N with
+      | MOk _ (hp, its, ll, ch, co) =>
+          match tr_v_iter Comma hp its ll ch co, tr_v_iter_value_references Comma hp its ll ch co with
+          | Ok vals, Ok (r0 :: _) =>
+              match tr_r_remove Comma hp its ll ch co r0 with
+              | MOk _ (hp, its, ll, ch, co, r0') =>
+                  Some (vals, tr_v_iter Comma hp its ll ch co, r0',
+                        tr_r_value_get Comma hp its ll ch co r0)
+              | MErr _ _ => None
+              end
+          | _, _ => None
+          end
+      | MErr _ _ => None
+      end
+  | MErr _ _ => None
+  end = Some ([[97]; [98]]%N, Ok [[98]%N], None, Err OtherError).
 Proof. vm_compute. reflexivity. Qed.
